@@ -64,8 +64,12 @@ LEAN_MODULE_EXTRA = list(globals().get('LEAN_MODULE_EXTRA', [])) + ['CC.Properti
 # (lean/CC/Properties/C19Transient.lean; generated table Gen.Sol.transientTable, reading CC/Model/TransientGetters.lean)
 THEOREMS += ['CC.C12_getter_is_row_output', 'CC.C12_getter_samples_report']
 LEAN_MODULE_EXTRA = list(globals().get('LEAN_MODULE_EXTRA', [])) + ['CC.Properties.C19Transient']
+# translator tie of TransientSolution.__post_init__ (the _u rows, the solver call, _tout / _x): harness/extract_solution.py -> Gen.Sol.methodTable,
+# reading CC/Model/SolutionEval.lean part (B), proofs CC/Properties/C12SolGen.lean
+THEOREMS += ['CC.C12_gen_init_shape', 'CC.C12_gen_input_rows', 'CC.C12_gen_solver_call']
+LEAN_MODULE_EXTRA = list(globals().get('LEAN_MODULE_EXTRA', [])) + ['CC.Properties.C12SolGen']
 OPEN_STATEMENTS = [
-    "getter tie (C12_getter_is_row_output / C12_getter_samples_report): the four TransientSolution getters are extracted (Gen.Sol.transientTable) and proved, for ARBITRARY sample arrays _x, _u, to return per sample the report read from y = C x + D u; NOT extracted: __post_init__ (that _x is the solver's state for _u, the order of _u = sources, _tout) — model transientU / transientSeries + correspondence ss_transient; the evaluator of the generated expression trees (CC/Model/TransientGetters.lean) is a hand-written reading; numpy shape errors are not modelled",
+    "getter tie (C12_getter_is_row_output / C12_getter_samples_report): the four TransientSolution getters are extracted (Gen.Sol.transientTable) and proved, for ARBITRARY sample arrays _x, _u, to return per sample the report read from y = C x + D u; __post_init__ is now extracted too (Gen.Sol.methodTable) and read by CC/Model/SolutionEval.lean: C12_gen_input_rows (row i of _u = input function of sources[i] on the requested time vector = the hand model transientU over the generated sources = ssSources; missing function: KeyError) and C12_gen_solver_call (the solver is called once with exactly A, B, C = I, D = 0, _u.T, tin, x0 = zero column; _tout / _x are its first / second result, _x reshaped to one row per state); what stays open: the evaluators of the generated trees (CC/Model/TransientGetters.lean, CC/Model/SolutionEval.lean) are hand-written readings; the statements before self._ssm = ... are tied only as literal text / tree (C12_gen_init_shape, transientSsm); user input functions are total maps List K -> List K (exceptions, scalar returns and numpy broadcasting / dtype not modelled); numpy shape errors are not modelled",
     "not formalised: 'agrees with the exact response of the linear system for piecewise-linear inputs' — lsim is a parameter of the model; oracle only (independent matrix-exponential reference on every case)",
     "not formalised: 'for constant inputs they settle to the DC solution' — proved is the algebraic core only: at a rest point (A x + B u = 0) the outputs are Ã⁻¹ QS u (C12_settle_dc) and the report read from them solves the circuit equations of the DC (s = 0) network, uniquely when that network is well-posed (C12_equilibrium_is_dc, C12_equilibrium_is_dc_unique); that the simulated trajectory CONVERGES to a rest point (needs Re λ < 0 and the flow), and that a rest point exists, is not a theorem; oracle only (settle stream against DCSolution)",
     "not formalised: 'for periodic inputs they settle to the multi-frequency steady state of C09' — C12_frequency_response (= C10_transfer) is the frequency response only, not convergence of the simulation; oracle only (periodic-steady-state stream against TimeDomainSolution)",
